@@ -22,6 +22,9 @@ RULE = (
     "oracle: result == database ground truth == Client.multiwalk on an identical fresh "
     "agent, each instance once. Non-trivial: >=1 instance below a root and >=1 GETBULK "
     "seen by the agent; distinct by (subtree sizes, ordered roots, bulk, policy, level)."
+    " The boundary walks of C01 (empty root, 257 roots, 128-arc OIDs, arc boundaries, sibling"
+    " roots) run as bulk walks with five (bulk, policy) pairs; the same root list object is p"
+    "assed on every walk of a client and must come back unchanged."
 )
 ASSUMPTIONS = [
     "reference agent's GETBULK (vf/agent.py) follows RFC 3416 4.2.3; all truncation policies used are conformant",
